@@ -294,6 +294,7 @@ func emVariants(thorough bool) []emVariant {
 		{name: "observation weights (nested EM), one thread", n: 2, threads: 1, schedule: []int{0, 0}, meta: true, withGamma: true},
 		{name: "summarised data (counts), one thread", n: 2, threads: 1, schedule: []int{0, 0}, counts: true, withGamma: true},
 		{name: "plain, two threads, all jobs on thread 1", n: 2, threads: 2, schedule: []int{1, 1}, withGamma: true},
+		{name: "plain, two threads, all jobs on thread 0 (thread 1 idle)", n: 2, threads: 2, schedule: []int{0, 0}, withGamma: true},
 		{name: "plain, two threads, one job each", n: 2, threads: 2, schedule: []int{0, 1}, withGamma: true},
 		{name: "plain, two threads, one job each (reversed)", n: 2, threads: 2, schedule: []int{1, 0}, withGamma: true},
 		{name: "weights only (no gamma kept), two threads, all jobs on thread 1", n: 2, threads: 2, schedule: []int{1, 1}},
